@@ -1574,6 +1574,152 @@ func checkNeverAsserts(P *Program, prop string) []StructResult {
 	return out
 }
 
+// ifacecmp (C05, no annotation): comparing two interface values with == or != panics at run time when both hold the same
+// uncomparable dynamic type ("comparing uncomparable type engine.list": engine.list is a slice type and implements Term).
+// Every such comparison in the two packages must have an operand that cannot hold an uncomparable value: the nil
+// constant, a value that was just converted from a comparable concrete type, or an interface type none of whose
+// implementations in the two packages is uncomparable. One obligation per function that contains such comparisons.
+func init() { structuralChecks = append(structuralChecks, checkIfaceCmp) }
+
+func checkIfaceCmp(P *Program, prop string) []StructResult {
+	if prop != "C05" {
+		return nil
+	}
+	// uncomparable named types of the two packages
+	var uncomparable []types.Type
+	for _, path := range []string{enginePath, rootPath} {
+		pkg := P.Pkgs[path]
+		if pkg == nil {
+			continue
+		}
+		for _, m := range pkg.Members {
+			if t, ok := m.(*ssa.Type); ok {
+				if !types.Comparable(t.Type()) {
+					uncomparable = append(uncomparable, t.Type())
+				}
+			}
+		}
+	}
+	mayHoldUncomparable := func(it types.Type) bool {
+		i, ok := it.Underlying().(*types.Interface)
+		if !ok {
+			return false
+		}
+		for _, u := range uncomparable {
+			if types.Implements(u, i) {
+				return true
+			}
+		}
+		return false
+	}
+	safeOperand := func(v ssa.Value) bool {
+		switch x := v.(type) {
+		case *ssa.Const:
+			return true
+		case *ssa.MakeInterface:
+			return types.Comparable(x.X.Type())
+		case *ssa.Call:
+			// id(t): the comparable identity of a term
+			if c := x.Common().StaticCallee(); c != nil && c.Name() == "id" {
+				return true
+			}
+		}
+		return !mayHoldUncomparable(v.Type())
+	}
+	var out []StructResult
+	for _, fn := range P.allFuncs {
+		root := fn
+		for root.Parent() != nil {
+			root = root.Parent()
+		}
+		if root.Pkg == nil || (root.Pkg.Pkg.Path() != enginePath && root.Pkg.Pkg.Path() != rootPath) || fn.Synthetic != "" {
+			continue
+		}
+		var bad []string
+		n := 0
+		for _, b := range fn.Blocks {
+			for _, in := range b.Instrs {
+				bo, ok := in.(*ssa.BinOp)
+				if !ok || (bo.Op != token.EQL && bo.Op != token.NEQ) {
+					continue
+				}
+				if _, isI := bo.X.Type().Underlying().(*types.Interface); !isI {
+					continue
+				}
+				if _, isI := bo.Y.Type().Underlying().(*types.Interface); !isI {
+					continue
+				}
+				n++
+				if !safeOperand(bo.X) && !safeOperand(bo.Y) && !excludedByTypeTest(bo.X, b, uncomparable) && !excludedByTypeTest(bo.Y, b, uncomparable) {
+					bad = append(bad, posOf(fn, bo.Pos()))
+				}
+			}
+		}
+		if n == 0 {
+			continue
+		}
+		res := StructResult{Name: fnKey(fn) + ":ifacecmp", OK: len(bad) == 0, Detail: fmt.Sprintf("%d interface comparison(s), each with an operand that cannot hold an uncomparable value", n)}
+		if len(bad) > 0 {
+			res.Detail = "both operands may hold a value of an uncomparable type (run-time panic): " + strings.Join(bad, ", ")
+		}
+		out = append(out, res)
+	}
+	sort.Slice(out, func(i, j int) bool { return out[i].Name < out[j].Name })
+	return out
+}
+
+// excludedByTypeTest: the block is only reached through the false edge of a test `v.(T)` (a case of a type switch that
+// did not match) where every uncomparable type that v's interface type admits would have matched T; so v holds a
+// comparable value there.
+func excludedByTypeTest(v ssa.Value, at *ssa.BasicBlock, uncomparable []types.Type) bool {
+	if v.Referrers() == nil {
+		return false
+	}
+	vi, ok := v.Type().Underlying().(*types.Interface)
+	if !ok {
+		return false
+	}
+	for _, r := range *v.Referrers() {
+		ta, ok := r.(*ssa.TypeAssert)
+		if !ok || !ta.CommaOk || ta.X != v || ta.Referrers() == nil {
+			continue
+		}
+		covers := true
+		for _, u := range uncomparable {
+			if !types.Implements(u, vi) {
+				continue
+			}
+			if ti, isI := ta.AssertedType.Underlying().(*types.Interface); isI {
+				if !types.Implements(u, ti) {
+					covers = false
+				}
+			} else if !types.Identical(u, ta.AssertedType) {
+				covers = false
+			}
+		}
+		if !covers {
+			continue
+		}
+		for _, er := range *ta.Referrers() {
+			ex, ok := er.(*ssa.Extract)
+			if !ok || ex.Index != 1 || ex.Referrers() == nil {
+				continue
+			}
+			for _, ir := range *ex.Referrers() {
+				br, ok := ir.(*ssa.If)
+				if !ok || br.Cond != ssa.Value(ex) {
+					continue
+				}
+				no := br.Block().Succs[1]
+				if len(no.Preds) == 1 && no.Dominates(at) {
+					return true
+				}
+			}
+		}
+	}
+	return false
+}
+
 func init() { structuralChecks = append(structuralChecks, checkTerminates) }
 
 func checkTerminates(P *Program, prop string) []StructResult {
